@@ -37,3 +37,14 @@ Proof.
     apply andb_true_iff in Hgs. destruct Hgs as [H1 H2]. rewrite forallb_app, (group_items_style_ok styles g H1), (IH H2). reflexivity. }
   rewrite Hok, (flat_items_toks gs Hg). reflexivity.
 Qed.
+
+(* a non-trivial content satisfying [content_ok]: bare text with indentation on both sides, a span whose
+   content is three pieces separated by <br/> (indentation before a break and after one), a <br/> between
+   elements, an empty span, indentation before the end tag *)
+Definition ex_groups : list group :=
+  [GText (mkPiece [10;32;32] [72;105] [10;32]);
+   GSpan [] (mkName [] s_span) [(mkName [] s_style, [65]); (mkName ns_tts [99;111;108;111;114], [114;101;100])]
+         (mkPiece [] [32;97] [10;32;32]) [([], mkPiece [10;9] [98] []); ([], mkPiece [] [] [])];
+   GBr [10;32] [];
+   GSpan [10] (mkName [] s_span) [] (mkPiece [] [] []) []].
+Example ex_content_ok : content_ok ex_groups [10] = true. Proof. vm_compute. reflexivity. Qed.
